@@ -188,6 +188,10 @@ func TestBuilderJoin(t *testing.T) {
 			for _, r := range rels {
 				m.Deps["0"] = append(m.Deps["0"], world.Dep{Kind: "local", Addr: r})
 			}
+			if rapid.Bool().Draw(t, "finderwarns") {
+				// the finder has something to say itself, too
+				m.Diags = map[string][]world.Diag{"0": {{Severity: "W", Summary: "Something odd", Detail: "", Subject: "main.tf"}}}
+			}
 			addr := "https://example.com/real.tgz"
 			call := addr
 			if from != "" {
